@@ -86,6 +86,21 @@ func genC06v4(o *Out, rng *rand.Rand, tier string) {
 			}
 		}
 	}
+	// a dozen and more instances of a few codes in arbitrary order
+	for _, cnt := range []int{12, 13, 14, 20, 40, 100} {
+		for rep := 0; rep < 2; rep++ {
+			w := append([]byte(nil), hdr...)
+			for k := 0; k < cnt; k++ {
+				code := []byte{43, 60, 82, 1, 43, 200}[rng.Intn(6)]
+				n := 1 + rng.Intn(4)
+				w = append(w, code, byte(n))
+				for j := 0; j < n; j++ {
+					w = append(w, byte(k*8+j))
+				}
+			}
+			fix4(o, append(w, 255), "many-instances-mixed")
+		}
+	}
 	// packets as the protocol means them (message types, boot options, structured values, empty options): received,
 	// forwarded, received again
 	meaningfulPackets(rng, func(p *dhcpv4.DHCPv4) {
